@@ -28,6 +28,7 @@ ASSUMPTIONS = [
     "a Stadler-closed-form / ODE disagreement is an oracle error (harness error -> inconclusive), never a violation",
 ]
 BUDGET = {"quick": 80, "thorough": 900}
+ROUNDS = {"thorough": 10}
 FLOORS = {"ode_comparisons": {"quick": 400, "thorough": 4000}, "closed_form_comparisons": {"quick": 80, "thorough": 800},
           "refinement_pairs": {"quick": 300, "thorough": 3000}, "json_option_checks": {"quick": 150, "thorough": 1500}, "oracle_cross_checks": 50}
 
